@@ -207,6 +207,9 @@ func checkC03(run *mon.Run, rng *mon.Rand, thorough bool) {
 	for n := 1; n <= maxN && !run.TooMany(); n++ {
 		for shape := 0; shape < 2; shape++ {
 			env := newL1Env(2, []time.Duration{period, period})
+			if shape == 1 && n%2 == 0 {
+				env.EnableShadow(uint64(n)) // other transactions run on discarded branches before every claim
+			}
 			user := env.Users[1]
 			for _, b := range []uint64{1, 2} {
 				if r := env.Deposit(env.Users[0], b, "l2", "uinit", math.NewInt(500_000_000), nil); r.Class != sim.OK {
